@@ -117,8 +117,11 @@ STATEMENTS: list[tuple[str, str]] = (
         # appended later (earlier indices are referred to by committed replay cases)
         ("backslash-literals", "SELECT 'C:\\\\temp' AS P, 'x\\\\' AS Q, K FROM SRC WHERE V <> 'dir\\\\' ORDER BY K"),
         ("unaliased-expressions", "SELECT DATEDIFF(DAY, C_DATE, '2021-01-01'::DATE), C_INT + 1, UPPER(C_STR), 'a\\\\b' FROM TT ORDER BY C_INT"),
+        ("number-precision-only", "SELECT '7'::NUMBER(4) AS A, 12::DECIMAL(6) AS B, C_INT::NUMERIC(9) AS C, 5::NUMBER(11,3) AS D FROM TT ORDER BY C_INT"),
     ]
 )
+# statements whose select list is made of casts to a declared NUMBER(p[,s]): the description carries that precision and scale
+EXPECT_PS = {"number-precision-only": [(4, 0), (6, 0), (9, 0), (11, 3)]}
 IN_TX = [("commit-in-tx", "COMMIT"), ("rollback-in-tx", "ROLLBACK"), ("insert-in-tx", "INSERT INTO SRC VALUES (8, 'eight')"), ("select-in-tx", "SELECT K FROM SRC ORDER BY K")]
 PARAM = [
     ("param-select", "SELECT {p} AS A, {p} AS B", ["x'y", 5]),
@@ -310,6 +313,10 @@ def run_description(case, ctx: Ctx) -> None:
                 if why:
                     ctx.fail(f"C06|type-disagrees|{why}", f"{sql}: column {md.name} described {NAMES.get(md.type_code, md.type_code)}({md.precision},{md.scale}) holds {v!r}")
         ctx.cls(*[f"type_code:{NAMES.get(c.type_code, c.type_code)}" for c in d])
+        if kind in EXPECT_PS:
+            got_ps = [(md.precision, md.scale) for md in d]
+            if got_ps != EXPECT_PS[kind]:
+                ctx.fail(f"C06|declared-type|precision-scale|stmt={kind}", f"{sql}: described {got_ps}, the casts declare {EXPECT_PS[kind]}")
         if kind in ("select-column", "select-star"):
             for md in d:
                 if md.name in DECLARED:
